@@ -45,6 +45,9 @@ def declare(reg):
     reg.classes['DictD'] = {'mro': [], 'fields': {'dkeys': 'strset', 'dvals': 'strmap'}, 'isa': ['dict']}
     for attr, srt in {'attr': 'str', 'id': 'str', 'ctx': 'opaque:AstNode', 'func': 'opaque:AstNode', 'args': 'seq[opaque:AstNode]'}.items():
         reg.opaque_attrs[('AstNode', attr)] = ('attr', srt)
+    reg.classes['BDict'] = {'mro': ['tatsu/util/boundeddict.py:BoundedDict'],
+                            'fields': {'okeys': 'seq[MemoKeyR]', 'ovals': 'arr[MemoKeyR,Outcome]', 'capacity': 'int'},
+                            'wf': ['self.capacity >= 1'], 'isa': ['dict', 'BoundedDict']}
     reg.classes['MemoD'] = {
         'mro': [], 'fields': {'mkeys': 'arr[MemoKeyR,bool]', 'mvals': 'arr[MemoKeyR,Outcome]'}, 'isa': ['dict'],
     }
